@@ -1771,7 +1771,7 @@ func c02Run(c *core.Ctx) {
 }
 
 func c02Replay(c *core.Ctx, payload json.RawMessage) {
-	if c02SecondReplay(c, payload) || c02ExtReplay(c, payload) || c01CommitCancelReplay(c, payload) || c02RefusalReplay(c, payload) {
+	if c02SecondReplay(c, payload) || c02ExtReplay(c, payload) || c01CommitCancelReplay(c, payload) || c02RefusalReplay(c, payload) || c02DisplayReplay(c, payload) {
 		return
 	}
 	var k c02Case
